@@ -4,7 +4,7 @@
    depends on /tmp/mut/repo.  Results go to /verif/seeded/<id>/detect.json.
    usage: run_mutants.py [--props C01,C02] [--only <seeded dir name>...] [--all-props-for <name>]"""
 import json, os, re, shutil, subprocess, sys, glob, time
-MUT='/tmp/mut'
+MUT=os.environ.get('MUT_DIR','/tmp/mut')
 def sh(cmd, cwd=None, env=None, timeout=3600):
     p=subprocess.run(cmd, shell=True, cwd=cwd, env=env, stdout=subprocess.PIPE, stderr=subprocess.STDOUT, text=True, timeout=timeout)
     return p.returncode, p.stdout
